@@ -999,13 +999,14 @@ def ring_phase_family(c, binp, groups, cap, stats, distinct):
     a differing record, and `isolated` reruns exactly the same three utterances.  Returns (ok, number of variants)."""
     allok, nvar = True, 0
     hit = stats.setdefault("ring_phase_cases (r = bufpos at the end flush of the variant; frames)", [])
-    for g in groups:
+    for gi, g in enumerate(groups):
         rc, err, P, _ = run_harness(binp, g, [])
         if not P:
             break
         Lb, win, N = P["livebuf"], P["win"], P["naudio"]
         maxM = min(299, (N - P["fsize"]) // P["fshift"] + 1)
-        for (r, M) in ring_phase_targets(c.rng, P, c.tier):
+        # thorough: every residue 0 .. L-1 on the first model, the critical ones on the others
+        for (r, M) in ring_phase_targets(c.rng, P, c.tier if gi == 0 else "quick"):
             if STATE["oracle_failed"]:
                 return allok, nvar
             M = max(2, min(M, maxM))
